@@ -171,6 +171,13 @@ func genHaulTrace(r *RNG, mode string, probes bool) *Trace {
 	// of the runs, after every piece
 	piece := maxInt(1, bc.BufferSize/r.Pick(1, 1, 2, 8, 32))
 	eager := r.Chance(0.5)
+	if sa {
+		piece = bc.BufferSize // every feed costs a suffix sort with a fixed 256x256 pass
+		if n > 1<<16+5000 {
+			n = 1<<16 + r.Range(-300, 5000)
+			t.Input = t.Input[:n]
+		}
+	}
 	fed, held := 0, 0
 	for fed < n && len(t.Ops) < 60000 {
 		t.Ops = append(t.Ops, Op{K: r.pickStr("Write", "Write", "ReadFrom"), N: piece})
